@@ -308,10 +308,7 @@ func genC02(c *Ctx) {
 	pool := c02Pool(c02Sizes, 12)
 	chains := c02Chains(c, pool)
 	for ci, ch := range chains {
-		N := 16
-		if ci%2 == 1 {
-			N = 32
-		}
+		N := []int{16, 32, 8}[ci%3] // 8 is the smallest degree ring.NewRing accepts (N < 16: the non-unrolled NTT)
 		ringQ, err := ring.NewRing(N, ch.Q)
 		if err != nil {
 			c.Count("ring-error")
@@ -347,6 +344,8 @@ func genC02(c *Ctx) {
 		}
 		if len(ch.Q) <= 6 {
 			guard("DecomposeNTT", func() { c02DecompNTT(c, po, ch) })
+			// conjugate-invariant twins (primes are = 1 mod 64 = 4N for N <= 16)
+			guard("ConjugateInvariant", func() { c02CI(c, po, ch, []int{8, 16}[ci%2]) })
 		}
 	}
 	top := func(section string, f func()) {
@@ -419,6 +418,11 @@ func c02Div(c *Ctx, po bool, e *c02Env) {
 						X = c02FamValues(c, N, M, new(big.Int).Mul(D, c02BigU(ch.Q[(level+len(ch.Q)-1)%len(ch.Q)])))
 					}
 					c02OneDiv(c, po, e, rl, kind, level, nb, X, "")
+				}
+				if nb > 0 {
+					for _, X := range c02DivInputs(c, N, M, D)[1:] {
+						c02OneDiv(c, po, e, rl, kind, level, nb, X, "")
+					}
 				}
 			}
 		}
